@@ -216,6 +216,8 @@ def gen(rng):
           "gaps": gaps, "read_caps": caps, "read_caps_cyclic": rng.random() < 0.5, "seed": rng.randrange(1 << 30)}
     if use_timeout and end != "reset" and rng.random() < 0.12:
         sc["nonblocking"] = True  # zero-timeout socket polled every T: 'would block' takes the place of the timeout
+    if rng.random() < 0.12:
+        sc["no_multithread"] = True  # WebSocket(enable_multithread=False): the no-op lock stand-in
     return sc
 
 
@@ -263,7 +265,8 @@ def run(sc, choices=None):
         cfg = {"api": api, "timeout": sc.get("timeout"), "end": sc.get("end", "eof"),
                "cuts": list(sc.get("cuts", ())), "gaps": dict(sc.get("gaps", {})),
                "read_caps": list(sc.get("read_caps", ())), "read_caps_cyclic": sc.get("read_caps_cyclic", False),
-               "max_calls": len(frames) + 8, "nonblocking": bool(sc.get("nonblocking"))}
+               "max_calls": len(frames) + 8, "nonblocking": bool(sc.get("nonblocking")),
+               "no_multithread": bool(sc.get("no_multithread"))}
         n = len(stream)
         for c in cfg["cuts"]:
             if not isinstance(c, int) or c > n:
@@ -281,7 +284,7 @@ def run(sc, choices=None):
     if cfg["timeout"] is not None and cfg["timeout"] < 1024:
         raise InvalidScenario("timeout too small")
     seed = int(sc.get("seed", 1))
-    bkey = (stream, api, cfg["timeout"], cfg["end"], seed, cfg["nonblocking"])
+    bkey = (stream, api, cfg["timeout"], cfg["end"], seed, cfg["nonblocking"], cfg["no_multithread"])
     base = _base_cache.get(bkey)
     if base is None:
         bcfg = dict(cfg, cuts=[], gaps={}, read_caps=[])
